@@ -180,7 +180,46 @@ def propagate_equalities(pc, goal, rounds=6):
 from contracts.etree_model import ETreeMixin
 
 
+OVERAPPROX = "c05!overapprox"
+
+
 class SerExecutor(ETreeMixin, Executor):
+    # ------------------------------------------------ over-approximation marks --
+    # Every over-approximated continuation (EXC-ANY raise, unknown result of an unmodelled call, a loop cut without
+    # invariant, an abstracted expression, a merged state) assumes a fresh Bool named c05!overapprox...: proofs are
+    # unaffected, a `sat` answer on such a path is not a counter-example (solve.SAT_UNTRUSTED -> `unknown` -> native replay).
+    def mark(self, st):
+        st.assume(z3.Bool(fresh_name(OVERAPPROX)))
+        return st
+
+    def exc_any(self, st, site, also=()):
+        t, c = self.uni.any_exception()
+        s2 = self.mark(st.fork().assume(c))
+        self.raise_in(s2, VExc(t, {"site": site}))
+        self.exc_any_sites.append(site)
+
+    def havoc_call(self, st, what, args, node):
+        outs = super().havoc_call(st, what, args, node)
+        for (s2, _v) in outs:
+            self.mark(s2)
+        return outs
+
+    def havoc_everything(self, st):
+        super().havoc_everything(st)
+        self.mark(st)
+
+    def merge_states(self, states):
+        return self.mark(super().merge_states(states))
+
+    def symbolic_for(self, s, st, it):
+        spec = self.loop_spec(s)
+        cut = spec is None or spec.inv is None or self.seq_view(st, it) is None
+        outs = super().symbolic_for(s, st, it)
+        if cut:
+            for o in outs:
+                self.mark(o.st)
+        return outs
+
     def __init__(self, *a, **k):
         super().__init__(*a, **k)
         self.witness_terms = {}
@@ -751,7 +790,7 @@ class SerExecutor(ETreeMixin, Executor):
             goal = z3.And(kk.t == spec["key"](ek), vt == spec["elem"](ev_)) if isinstance(kk, VStr) and vt is not None else F
             result = PV(sp.norm(V.Dict(spec["map"](coll))))
         # keys of V mappings are strings: str(key) == key
-        self.add_vc("comp-elementwise", f"{kind}comp-{self.comp_ordinal(n)}", s_el.pc, goal,
+        self.add_vc("comp-elementwise", "list-elements" if what == "list" else "mapping-entries", s_el.pc, goal,
                     note=f"{self.loc(n)} element expression differs from the element function of the specified map", loc=self.loc(n))
         return [(st, result)]
 
@@ -822,11 +861,78 @@ class SerExecutor(ETreeMixin, Executor):
         return outs
 
     # ---------------------------------------------------------------- loops --
+    # -------------------------------------------------- loop == comprehension --
+    def loop_as_comprehension(self, s, st, it):
+        """`acc = [] / {}` ... `for x in C: [t = e]* ; acc.append(E) | acc[K] = E` over a symbolic collection C is the
+        comprehension `[E for x in C]` / `{K: E for x in C}` (temporaries substituted; PY-ORDER: K before E).  Exact when
+        the shape matches (fresh empty accumulator without aliases, body = pure temporaries + one append/store, no
+        break/continue/else, the accumulator not read in the body); returns None otherwise."""
+        import copy
+        if s.orelse or not s.body or self._iter_view(st, it) is None:
+            return None
+        *temps, last = s.body
+        tmap = {}
+        for t in temps:
+            if isinstance(t, ast.Assign) and len(t.targets) == 1 and isinstance(t.targets[0], ast.Name):
+                name, val = t.targets[0].id, t.value
+            elif isinstance(t, ast.AnnAssign) and isinstance(t.target, ast.Name) and t.value is not None:
+                name, val = t.target.id, t.value
+            else:
+                return None
+            if name in tmap:
+                return None
+            tmap[name] = val
+        acc = key = elt = None
+        if isinstance(last, ast.Expr) and isinstance(last.value, ast.Call) and isinstance(last.value.func, ast.Attribute) \
+                and last.value.func.attr == "append" and isinstance(last.value.func.value, ast.Name) and len(last.value.args) == 1 and not last.value.keywords:
+            acc, elt = last.value.func.value.id, last.value.args[0]
+        elif isinstance(last, ast.Assign) and len(last.targets) == 1 and isinstance(last.targets[0], ast.Subscript) \
+                and isinstance(last.targets[0].value, ast.Name) and not isinstance(last.targets[0].slice, ast.Slice):
+            acc, key, elt = last.targets[0].value.id, last.targets[0].slice, last.value
+        else:
+            return None
+        cur = st.frame.env.get(acc)
+        if not isinstance(cur, VRef):
+            return None
+        o = st.obj(cur.ref)
+        if not ((o.kind == "list" and key is None and o.data == []) or (o.kind == "dict" and key is not None and o.data == {})) or not o.fresh:
+            return None
+        for fr in st.frames:                       # no alias of the accumulator
+            for nm, v in fr.env.items():
+                if isinstance(v, VRef) and v.ref == cur.ref and not (fr is st.frame and nm == acc):
+                    return None
+        used = {n.id for part in [s.iter, elt] + ([key] if key is not None else []) + list(tmap.values()) for n in ast.walk(part) if isinstance(n, ast.Name)}
+        if acc in used or any(isinstance(n, (ast.Yield, ast.YieldFrom, ast.NamedExpr, ast.Await)) for part in s.body for n in ast.walk(part)):
+            return None
+
+        class Sub(ast.NodeTransformer):
+            def visit_Name(self_, n):
+                if isinstance(n.ctx, ast.Load) and n.id in tmap:
+                    return self_.visit(copy.deepcopy(tmap[n.id]))
+                return n
+        elt2 = Sub().visit(copy.deepcopy(elt))
+        gen = ast.comprehension(target=s.target, iter=s.iter, ifs=[], is_async=0)
+        if key is None:
+            comp = ast.ListComp(elt=elt2, generators=[gen])
+        else:
+            comp = ast.DictComp(key=Sub().visit(copy.deepcopy(key)), value=elt2, generators=[gen])
+        ast.copy_location(comp, s)
+        ast.fix_missing_locations(comp)
+        outs = []
+        for (s2, v) in self.ev(comp, st):
+            s2.bind(acc, v)
+            outs.append(Outcome("fall", s2))
+        return outs
+
     def s_For(self, s, st):
         outs = []
         for (s2, it) in self.ev(s.iter, st):
+            as_comp = self.loop_as_comprehension(s, s2, it)
+            if as_comp is not None:
+                outs.extend(as_comp)
+                continue
             if isinstance(it, PTok) and it.what == "fields":
-                outs.extend(self.for_fields(s, s2, it.a))
+                outs.extend(self.for_fields(s, s2, it.a, it.b))
             elif isinstance(it, PTok) and it.what == "nameset":
                 outs.extend(self.for_nameset(s, s2, it.a))
             else:
@@ -837,15 +943,23 @@ class SerExecutor(ETreeMixin, Executor):
                     outs.extend(self.symbolic_for(s, s2, it))
         return outs
 
-    def for_fields(self, s, st, fs):
-        """for f in fields(obj): prefix induction over the field list fs.
-        The invariant sees lc.extra['done'] (KV term: the processed prefix) and lc.extra['all']."""
+    def kind_loop_spec(self, s, kind):
+        """Invariant of a loop identified by WHAT it iterates (fields of an instance / a set of field names), wherever the
+        loop lives (the function under contract or a helper executed in place) -- not by its ordinal or by local names."""
         spec = self.loop_spec(s)
+        if spec is not None and spec.inv is not None:
+            return spec
+        return getattr(self.contract, kind + "_loop", None) if self.contract is not None else None
+
+    def for_fields(self, s, st, fs, obj=None):
+        """for f in fields(obj): prefix induction over the field list fs.
+        The invariant sees lc.extra['done'] (KV term: the processed prefix), lc.extra['all'] and lc.extra['obj']."""
+        spec = self.kind_loop_spec(s, "fields")
         if spec is None or spec.inv is None:
             self.unsupported(s, "loop over the fields of a dataclass instance needs an invariant")
         entry = st.fork()
         label = spec.label or f"L{s.lineno}"
-        self.add_vc("inv-init", label, st.pc, self._b(spec.inv(LoopCtx(self, st, None, entry, extra={"done": KV.knil, "all": fs}))), loc=self.loc(s))
+        self.add_vc("inv-init", label, st.pc, self._b(spec.inv(LoopCtx(self, st, None, entry, extra={"done": KV.knil, "all": fs, "obj": obj}))), loc=self.loc(s))
         outs = []
         body = st.fork()
         before = dict(body.heap)
@@ -856,7 +970,7 @@ class SerExecutor(ETreeMixin, Executor):
         fk, fv = z3.String(fresh_name("fname")), z3.Const(fresh_name("fval"), V)
         rest = z3.Const(fresh_name("rest"), KV)
         body.assume(fs == sp.APP(done, KV.kcons(fk, fv, rest)))
-        body.assume(self._b(spec.inv(LoopCtx(self, body, None, entry, extra={"done": done, "all": fs}))))
+        body.assume(self._b(spec.inv(LoopCtx(self, body, None, entry, extra={"done": done, "all": fs, "obj": obj}))))
         lf = getattr(self.contract, "loop_facts", None)
         if lf is not None:
             for fct in lf(self, body, entry, (done, fk, fv, rest)):
@@ -865,13 +979,13 @@ class SerExecutor(ETreeMixin, Executor):
             for o in self.exec_block(s.body, s3):
                 if o.kind in ("fall", "continue"):
                     d2 = sp.APP(done, KV.kcons(fk, fv, KV.knil))
-                    self.add_vc("inv-preserve", label, o.st.pc, self._b(spec.inv(LoopCtx(self, o.st, None, entry, extra={"done": d2, "all": fs, "step": (done, fk, fv, rest)}))),
+                    self.add_vc("inv-preserve", label, o.st.pc, self._b(spec.inv(LoopCtx(self, o.st, None, entry, extra={"done": d2, "all": fs, "obj": obj, "step": (done, fk, fv, rest)}))),
                                 loc=self.loc(s))
                 elif o.kind == "break":
                     self.unsupported(s, "break in a loop over dataclass fields")
                 else:
                     outs.append(o)
-        after.assume(self._b(spec.inv(LoopCtx(self, after, None, entry, extra={"done": fs, "all": fs}))))
+        after.assume(self._b(spec.inv(LoopCtx(self, after, None, entry, extra={"done": fs, "all": fs, "obj": obj}))))
         if s.orelse:
             outs.extend(self.exec_block(s.orelse, after))
         else:
@@ -891,7 +1005,7 @@ class SerExecutor(ETreeMixin, Executor):
     def for_nameset(self, s, st, cls):
         """for name in {f.name for f in fields(cls)}: every field name exactly once, in arbitrary order.
         Invariant sees lc.extra['seen'] (Array String->Bool: processed names)."""
-        spec = self.loop_spec(s)
+        spec = self.kind_loop_spec(s, "nameset")
         if spec is None or spec.inv is None:
             self.unsupported(s, "loop over a set of field names needs an invariant")
         entry = st.fork()
